@@ -201,7 +201,11 @@ def impl_fit(case):
         out = info_out(info, fitter)
         if case['mode'] == '3d':      # the same fit with remove_resolved=True (not modelled; its rows are judged by the row / ranking / flux clauses only)
             try:
-                out['rr'] = info_out(make_fitter(d, case, remove_resolved=True).fit(make_source(case['src'])))
+                frr = make_fitter(d, case, remove_resolved=True)
+                out['rr'] = info_out(frr.fit(make_source(case['src'])), frr)
+                import numpy as np
+                ext = frr.models.extended
+                out['rr_ext'] = np.asarray(ext).astype(int).tolist() if type(ext) == np.ndarray else None      # [model][distance][band]; None: the step is skipped
             except Exception as e:
                 out['rr'] = {'exc': '%s: %s' % (type(e).__name__, e)}
         return out
